@@ -26,6 +26,7 @@ GROUP = "c09"
 HARNESS = dict(name="c09", srcs=["c09.cpp"], flags=["-ffp-contract=off"], libs=["-ltbb", "-lboost_timer"])
 KEYS = ["ROOTS", "EORD", "RET", "N", "CYC", "W"]
 ALGS = ["signed", "fvs", "iso"]
+TBB_ALGS = ["signed_tbb", "fvs_tbb", "iso_tbb"]      # real oneTBB; judged only (which tied cycle is kept depends on the schedule)
 TOL = Fraction(1, 10 ** 9)
 KIND_EMPTY = "empty cycle emitted"
 KIND_BELOW = "returned weight below the optimum"
@@ -173,6 +174,8 @@ def alg_cases(rng, tier):
         gt = ftokens(g)
         for alg in ALGS:
             cases.append(("A %s %s" % (alg, gt), style))
+        if rng.random() < 0.35:
+            for alg in TBB_ALGS: cases.append(("A %s %s" % (alg, gt), style))
     return cases
 
 
@@ -362,23 +365,29 @@ def check_model_weights(mline, n, es):
 # known finding D9
 # --------------------------------------------------------------------------------------------------------------
 def findings_by_kind():
-    """failure kind -> known-finding entry (D9: empty cycle / below the optimum; D9b: valid basis above the optimum)"""
+    """failure kind -> known-finding entries (D9: empty cycle / below the optimum; D9b: valid basis above the optimum; D9c: the TBB
+    lookup adds numeric_limits::max for the phase whose lookup came up empty)"""
     out = {}
     for f in lib.known_findings(PID):
-        if f.get("entry") == "iso":
-            for k in f.get("kinds", []): out[k] = f
+        if f.get("entry") in ("iso", "iso_tbb"):
+            for k in f.get("kinds", []): out.setdefault(k, []).append(f)
     return out
 
 
+def applies(f, alg):
+    """an entry recorded for `iso` covers the sequential and the TBB entry point (same construction); one recorded for `iso_tbb` only the latter"""
+    return alg == "iso_tbb" if f.get("entry") == "iso_tbb" else alg in ("iso", "iso_tbb")
+
+
 def is_known(fk, alg, es, kind):
-    """a failure is known only for (entry point iso) x (weights outside the exact domain) x (a listed kind)"""
-    return alg == "iso" and kind in fk and not in_exact_domain([w for _, _, w in es])
+    """a failure is known only for (entry point iso / iso_tbb as recorded) x (weights outside the exact domain) x (a listed kind)"""
+    return alg in ("iso", "iso_tbb") and any(applies(f, alg) for f in fk.get(kind, [])) and not in_exact_domain([w for _, _, w in es])
 
 
 def replay_witnesses(c, exe, fk, hits):
     """run the stored witnesses of every entry (5 times each: the outcome must not depend on the heap layout); stale => NOTE"""
     seen = set(); nw = 0
-    for f in fk.values():
+    for f in [x for fl in fk.values() for x in fl]:
         if f["id"] in seen: continue
         seen.add(f["id"])
         kinds_f = set(f.get("kinds", []))
@@ -474,7 +483,7 @@ def check(tier, seed):
                 h = hits.setdefault(kind, [0, l]); h[0] += 1
             else:
                 dom = "" if not exactdom else " (weights in the EXACT domain)"
-                report("judge " + kind, i, "mcb_sva_%s%s: %s: %s" % ({"signed": "signed", "fvs": "fvs_trees", "iso": "iso_trees"}[alg], dom, kind, msg))
+                report("judge " + kind, i, "mcb_sva_%s%s: %s: %s" % ({"signed": "signed", "fvs": "fvs_trees", "iso": "iso_trees", "signed_tbb": "signed_tbb", "fvs_tbb": "fvs_trees_tbb", "iso_tbb": "iso_trees_tbb"}[alg], dom, kind, msg))
         if i in model_out:
             mw = check_model_weights(model_out[i], n, es)
             if mw: report("model-weights", i, "binary64 model: " + mw, False, {"theorem_or_correspondence": "Properties_C09.C09_returned_value_is_fold on the extracted model"})
@@ -510,7 +519,9 @@ def check(tier, seed):
     c.extra["exact_domain_cases"] = nexact
     c.extra["d9_hits"] = {k: v[0] for k, v in hits.items()}
     for kind, (cnt, first) in sorted(hits.items()):
-        c.known(fk[kind], "%s entry=mcb_sva_iso_trees domain=inexact-weights kind=\"%s\" (%d run(s) incl. the stored witnesses; first: %s)" % (fk[kind]["id"], kind, cnt, first[:200]))
+        f0 = fk[kind][0]
+        c.known(f0, "%s entry=mcb_sva_%s domain=inexact-weights kind=\"%s\" (%d run(s) incl. the stored witnesses; first: %s)" %
+                (f0["id"], "iso_trees_tbb" if f0.get("entry") == "iso_tbb" else "iso_trees", kind, cnt, first[:200]))
     return c.finish(
         assumptions=["BFS root order and pointer order of edge descriptors are recovered from the run and fed to the model as oracles",
                      "boost::d_ary_heap_indirect<.,4,.> behaves as HeapModel.v (exact tie-breaking); std::set<Edge> iterates in pointer order",
